@@ -134,3 +134,15 @@ also("C07", "scan of third-party callees for Must* helpers on non-constant value
 also("C09", "ESP lock-pairing rule", "Also decides that a mutex taken in the verifier packages is released on every path to a return.")
 also("C10", "ESP must-create rule on CreateNewSigningKeyVersion implementations", "Also decides that every key manager returns from CreateNewSigningKeyVersion successfully only after a key-creating call succeeded in that call.")
 also("C13", "manifest freshness rules shared with C14.R6/R6b", "Also decides (shared with C14) that the manifest extended and written back was read from this attempt's workspace into a per-attempt object.")
+
+# rules added after the round-7 seeds (batch 2) and the round-5 refactorings
+also("C10", "ESP create-after-failure rule", "Also decides that the bootstrap / rotation sequence creates no key after one of its earlier steps failed.")
+also("C11", "call-site agreement of the write gate", "Also decides that the overwrite gate of the CA store writes under the very object name it was asked about.")
+also("C13", "ESP rule on workspace commits", "Also decides that a workspace is never committed with an endorsement file written under the output directory and no manifest written after it.")
+also("C14", "sibling agreement of ChangeOps back ends", "Also decides that every in-repo back end commits what the attempt wrote.")
+also("C15", "forward use analysis of flag addresses", "Also decides that the addresses of the DryRun / MeasurementOnly fields flow only into the flag library's own boolean binding.")
+also("C16", "effects analysis of the event encoders (shared with C18.R9)", "Also decides that encoding an event leaves the event untouched, so both events of a pair carry one reference-manifest GUID.")
+also("C17", "comparison events in one path-sensitive pass; stores through kept field pointers", "Policy and measurement stores need, on their own path, overwrite permission or the outcome unset/equal of the matching comparison, wherever that comparison is written.")
+also("C18", "effects analysis of encoder methods", "Also decides that no encoder method of the codec packages writes through its receiver.")
+also("C19", "descriptor/value cursor transfer", "Also decides that each evaluator step hands on the descriptor that belongs to the value it hands on.")
+also("C20", "error discipline of refused destroys", "Also decides that a destroy request the service refuses is reported to the caller.")
